@@ -405,7 +405,8 @@ func (s spec) wellFormed() bool {
 			}
 		}
 		for _, r := range f.body.tsrefs {
-			if !typeNameOK(r.set) || (r.member != "" && !typeSegRx.MatchString(r.member)) {
+			// member: a member of the referenced set, or a path through ITS references (Ref0::Tx)
+			if !typeNameOK(r.set) || (r.member != "" && !typeNameOK(r.member)) {
 				return false
 			}
 		}
